@@ -682,6 +682,9 @@ func TestAtomicFile(t *testing.T) {
 						res.Violate("err-retry "+ck, fmt.Sprintf("%s: retrying the call gave %q, want success", where, cr.Retry), rp)
 					} else if key(cr.After) != key(post) {
 						res.Violate("err-after "+ck, fmt.Sprintf("%s: after the retry the server serves {%s}, want {%s}", where, key(cr.After), key(post)), rp)
+					} else if st, err := openAndObserve(d, kek); err != nil || key(st) != key(post) {
+						// the retry was acknowledged: it must be in the file (what a restart would load), not only in memory
+						res.Violate("err-after-disk "+ck, fmt.Sprintf("%s: the retry succeeded and the server serves the post-call state, but the database file holds {%s} (%v), want {%s}", where, key(st), err, key(post)), rp)
 					}
 				default: // reported success although a call failed: then it must really have happened
 					if key(cr.State) != key(post) {
